@@ -17,6 +17,7 @@ import FontVerif.Lemmas.DeltaLemmas
 import FontVerif.Lemmas.IvsLemmas
 import FontVerif.Lemmas.MetricsLemmas
 import FontVerif.Lemmas.DsimLemmas
+import FontVerif.Lemmas.BuiltDelta
 set_option linter.unusedVariables false
 namespace FontVerif.C11
 open FontVerif FontVerif.Tent
@@ -1007,5 +1008,91 @@ example : baseAdvance [(500, 10), (600, 20)] 5 = 600 := by decide
 example : baseLsb [(500, 10), (600, 20)] [7, 8, 9] 3 = 8 := by decide
 example : advanceUnits 9 [(500, 10), (600, 20)] 5 (some (-25)) = some 575 := by decide
 example : dsimGet 0x11 2 [0, 5, 1, 3] 7 = some (64, 3) := by decide
+
+/-! ## 7. builder ∘ reader: the delta evaluated on a built store
+
+`denseSum canon coords row = Σ_r row[r] · computeScalar(canon[r], coords)` over *all* canonical
+regions `r` of the builder (`canon` = the builder's regions in canonical order); the store's region
+list is `usedRegions.map canon` (pruned, renumbered). -/
+
+/-- **add_then_build_delta** (first and second sentence of the property together): add any delta
+sets, build with any partition the optimiser may choose, then evaluate `compute_delta` at any
+non-empty location through *any* index the remapping holds for the id returned for the `k`-th
+set: the result is `⌊(Σ_regions delta_r · scalar_r + 2¹⁵) / 2¹⁶⌋ as i32` with the deltas exactly
+as added (0 for regions the set does not name) and the tent scalars of Section 1 — merges,
+reordering, narrowing, pruning and renumbering are invisible. -/
+theorem add_then_build_delta (n : Nat) (canon : List (List (Int × Int × Int)))
+    (hcl : canon.length = n) (sets : List (List (Nat × Int))) (groups : List (List Member))
+    (hperm : groups.flatten.Perm (addAllDedup [] sets).1)
+    (hd : ∀ ds ∈ sets, ∀ rd ∈ ds, inI32 rd.2) (hn : n < 32768) (hcount : sets.length ≤ 4294967296)
+    (hsub : (buildOptimized n groups).subtables.length ≤ 65536)
+    (k : Nat) (ds : List (Nat × Int)) (id : Nat) (hk : sets[k]? = some ds)
+    (hid : (addAllDedup [] sets).2[k]? = some id) (coords : List Int) (hne : coords ≠ []) :
+    ∀ o i, (id, o, i) ∈ (buildOptimized n groups).remap →
+      computeDelta ((buildOptimized n groups).usedRegions.map fun r => canon.getD r [])
+        (buildOptimized n groups).subtables o i coords =
+        .ok (roundAccum (denseSum canon coords (dense (normalizeDeltaSet ds) n))) := by
+  have hs := addAllDedup_spec sets [] storeInv_nil (by simpa using hcount)
+  have hent := hs.2.2.2 k ds id hk hid
+  have hmemE : ∀ g ∈ groups, ∀ m ∈ g, m ∈ (addAllDedup [] sets).1 := by
+    intro g hg m hm
+    exact hperm.mem_iff.mp (List.mem_flatten.mpr ⟨g, hg, hm⟩)
+  have hd' : ∀ g ∈ groups, ∀ m ∈ g, ∀ rd ∈ m.1, inI32 rd.2 := by
+    intro g hg m hm rd hrd
+    rcases addAllDedup_keys sets [] m (hmemE g hg m hm) with h | ⟨d, hdm, hkey⟩
+    · simp at h
+    · rw [hkey] at hrd; exact hd d hdm rd (normalize_mem hrd)
+  have hwf := optimized_encs_wf n groups hd'
+  intro o i h
+  obtain ⟨e, he, m, hm, hmid, hr⟩ := encodeAll_delta n canon hcl _ hwf hn hsub coords hne id o i h
+  rw [List.mem_mergeSort] at he
+  obtain ⟨g', hg', rfl⟩ := List.mem_map.mp he
+  obtain ⟨g, hg, rfl⟩ := List.mem_map.mp hg'
+  rw [List.mem_mergeSort] at hm
+  obtain ⟨m0, hm0, rfl⟩ := List.mem_map.mp hm
+  obtain ⟨k', hk'⟩ := List.mem_iff_getElem?.mp (hmemE g hg m0 hm0)
+  have := hs.1.1 k' m0 hk'
+  simp only at hmid
+  rw [hmid] at this; subst this
+  rw [hent] at hk'
+  have hm' : m0 = (normalizeDeltaSet ds, id) := (Option.some.inj hk').symm
+  unfold buildOptimized
+  simp only []
+  rw [hr, hm']
+  simp only [normalizeDeltaSet_idem]
+
+/-- the weighted sum on the right-hand side, spelled out: a sum over all canonical regions. -/
+theorem denseSum_spelled_out (canon : List (List (Int × Int × Int))) (coords : List Int)
+    (row : List Int) :
+    denseSum canon coords row =
+      sumOver (fun r => row.getD r 0 * computeScalar (canon.getD r []) coords)
+        (List.range row.length) :=
+  denseSum_eq canon coords row
+
+/-- concrete storage used by the non-vacuity examples below. -/
+private theorem ex_store : addAllDedup [] [[(0, 5)], [(0, 5)], [(0, 0)]] =
+    ([([(0, 5)], 0), ([], 1)], [0, 0, 1]) := by
+  simp [addAllDedup, dedupAdd, normalizeDeltaSet]
+
+/-- non-vacuity of `add_then_build_retrievable` / `add_then_build_delta`: all hypotheses hold for a
+concrete sequence of additions (with a duplicate and an all-zero set) and a concrete partition. -/
+example : ∀ o i, (0, o, i) ∈ (buildOptimized 1 [[([], 1)], [([(0, 5)], 0)]]).remap →
+    retrieve (buildOptimized 1 [[([], 1)], [([(0, 5)], 0)]]) 1 o i =
+      some (dense (normalizeDeltaSet [(0, 5)]) 1) :=
+  (add_then_build_retrievable 1 [[(0, 5)], [(0, 5)], [(0, 0)]] [[([], 1)], [([(0, 5)], 0)]]
+    (by rw [ex_store]; decide) (by decide) (by omega) (by decide)
+    (by rw [optimized_subtable_count _ _ (by decide)]; decide) 1 [(0, 5)] 0 (by decide)
+    (by rw [ex_store]; decide)).2
+
+example : ∀ o i, (0, o, i) ∈ (buildOptimized 1 [[([], 1)], [([(0, 5)], 0)]]).remap →
+    computeDelta ((buildOptimized 1 [[([], 1)], [([(0, 5)], 0)]]).usedRegions.map
+        fun r => [[(0, 16384, 16384)]].getD r [])
+      (buildOptimized 1 [[([], 1)], [([(0, 5)], 0)]]).subtables o i [8192] =
+      .ok (roundAccum (denseSum [[(0, 16384, 16384)]] [8192] (dense (normalizeDeltaSet [(0, 5)]) 1))) :=
+  add_then_build_delta 1 [[(0, 16384, 16384)]] rfl [[(0, 5)], [(0, 5)], [(0, 0)]]
+    [[([], 1)], [([(0, 5)], 0)]]
+    (by rw [ex_store]; decide) (by decide) (by omega) (by decide)
+    (by rw [optimized_subtable_count _ _ (by decide)]; decide) 1 [(0, 5)] 0 (by decide)
+    (by rw [ex_store]; decide) [8192] (by simp)
 
 end FontVerif.C11
